@@ -1,14 +1,9 @@
 package rules
 
 import (
-	"fmt"
 	"go/ast"
 	"go/token"
 	"go/types"
-	"sort"
-	"strings"
-
-	"golang.org/x/tools/go/cfg"
 
 	"osmcheck/core"
 )
@@ -17,27 +12,28 @@ func init() {
 	register(&core.Property{
 		ID:    "C09",
 		Title: "Resuming a PBF scan at the reported byte offset loses no element",
-		Explanation: "Structural necessary conditions of the offset bookkeeping, decided on the pipeline model: " +
-			"(B1) the byte counter grows, once per successfully read block and only then, by exactly the lengths of the buffers handed to io.ReadFull for that block (the 4-byte size prefix, the header, the blob); " +
-			"(B2) the offset attached to a data block is the counter value loaded before that block is read, in the same iteration, and travels with that block's blob; the block read before the loop (a restart on a data block) is dispatched with offset 0; " +
-			"(B3) the worker copies the offset of the pair it received into the pair it emits, next to the objects decoded from that pair's blob; " +
-			"(B4) when the consumer takes a new block, the previous offset receives the old current offset before the current offset receives the block's offset, and only then; " +
+		Explanation: "Structural necessary conditions of the offset bookkeeping, decided on the pipeline model. Fields, pair types and functions are found by role and type (the int64 decoder field increased in reader-only code is the counter, the int64 / *Blob / []osm.Object fields of the channel element types are offset / blob / objects, the decoder fields assigned from a received pair's offset and from each other in the consumer are current / previous), values are followed through locals, parameters and helper results, and path conditions are decided by automata over the control-flow graph with helper calls inlined, so the rules do not depend on naming, statement shape or on which helper holds a statement: " +
+			"(B1) every io.ReadFull reached from the block reader reads a buffer handed down unchanged, whose length is a re-slice bound or the constant of its make; the single `+=` of the byte counter adds exactly those lengths, on every path after all the reads, exactly on the success returns; " +
+			"(B2) on every path of the reader goroutine the counter is loaded before the block read of the same iteration, never after; a pair is only sent in an iteration that read a block; the data pair's offset is (only) such a load and its blob (only) a result of the block reader; the block read before the loop (a restart on a data block) is dispatched with offset 0; " +
+			"(B3) the worker emits the offset of the pair it received next to the objects decoded from that same pair's blob; " +
+			"(B4) evaluated for the three outcomes of the consumer's receive (normal block / queue closed / EOF pair), with every branch that is not a test of the receive's ok flag or of pair.err==io.EOF taken both ways: a normal block always passes `previous = current` then `current = pair.offset` and becomes the current block before the next receive or return - nothing but the closed/EOF exit may bypass the shift -, and on the closed/EOF outcomes the offsets do not move; " +
 			"(B5) FullyScannedBytes reports the current, PreviousFullyScannedBytes the previous offset; " +
-			"(B6) a first block that is not a header is dispatched to the first worker, not dropped, and only a header block is decoded as header. " +
+			"(B6) a first block that is not a header is sent to the workers before the loop, depending only on that type test, and the first block is decoded as a header only under the test that it is one. " +
 			"NOT decided: the arithmetic value of offsets for concrete files; that a scan started at such an offset decodes the same objects (C01).",
 		Assumptions: []string{"go/types, go/cfg (x/tools v0.29.0)", "io.ReadFull reads exactly len(buf) bytes on success"},
 		LevelText:   "Structural necessary conditions for 'the reported offset is the start of the block holding the last returned object': provenance of the counter increment, capture-before-read, and unmodified transport of the offset through worker, serializer and consumer, decided on every path of the functions involved.",
 		LevelNote:   "Trusts the type checker, go/cfg and io.ReadFull's contract; value-level equality of offsets for concrete files is not decided.",
-		Technique:   "type-resolved provenance rules over syntax + CFG dominance (counter increment = sum of read lengths; capture precedes read; field-to-field transport)",
+		Technique:   "role/type-resolved provenance (definitions followed through locals, parameters and helper results) + typestate automata over the CFG with inlined helpers (reads before increment, capture before read, shift on every normal block) + finite-domain evaluation of the receive outcome (guard whitelist) + guard facts for the header test",
 		DesignRef:   "DESIGN.md §5 C09",
 		Rules: []*core.Rule{
-			{ID: "B1", Floor: 4, Doc: "byte counter increment equals the sum of the lengths read for the block", Run: c09B1},
+			{ID: "B1", Floor: 3, Doc: "byte counter increment equals the sum of the lengths read for the block", Run: c09B1},
 			{ID: "B2", Floor: 3, Doc: "offset captured before the read of the same iteration and carried with that blob; restart pair at offset 0", Run: c09B2},
 			{ID: "B3", Floor: 1, Doc: "worker copies the received offset into the emitted pair", Run: c09B3},
-			{ID: "B4", Floor: 2, Doc: "Next shifts previous/current offsets when a new block is taken", Run: c09B4},
+			{ID: "B4", Floor: 2, Doc: "the consumer shifts previous/current offsets for every normal block taken from the queue and only then (guard whitelist: closed / EOF)", Run: c09B4},
 			{ID: "B5", Floor: 2, Doc: "accessors return current / previous offset", Run: c09B5},
 			{ID: "B6", Floor: 2, Doc: "non-header first block is dispatched; only a header is decoded as header", Run: c09B6},
 		},
+		Benign: c09Benign,
 		Mutants: []core.Mutant{
 			{Name: "count-without-prefix", File: "osmpbf/decode.go", Find: "dec.bytesRead += 4 + int64(blobHeaderSize) + int64(blobHeader.GetDatasize())", Replace: "dec.bytesRead += int64(blobHeaderSize) + int64(blobHeader.GetDatasize())", ExpectRule: "B1", ExpectConstruct: "increment"},
 			{Name: "count-header-twice", File: "osmpbf/decode.go", Find: "dec.bytesRead += 4 + int64(blobHeaderSize) + int64(blobHeader.GetDatasize())", Replace: "dec.bytesRead += 4 + int64(blobHeaderSize) + int64(blobHeaderSize)", ExpectRule: "B1", ExpectConstruct: "increment"},
@@ -48,6 +44,9 @@ func init() {
 			{Name: "worker-drops-offset", File: "osmpbf/decode.go", Find: "out = oPair{Offset: p.Offset, Objects: objects, Err: err}", Replace: "out = oPair{Objects: objects, Err: err}", ExpectRule: "B3", ExpectConstruct: "worker"},
 			{Name: "next-shift-swapped", File: "osmpbf/decode.go", Find: "\t\tdec.pOffset = dec.cOffset\n\t\tdec.cOffset = cd.Offset\n", Replace: "\t\tdec.cOffset = cd.Offset\n\t\tdec.pOffset = dec.cOffset\n", ExpectRule: "B4", ExpectConstruct: "shift"},
 			{Name: "next-shift-on-eof", File: "osmpbf/decode.go", Find: "\t\tcd, ok := <-dec.serializer\n", Replace: "\t\tcd, ok := <-dec.serializer\n\t\tdec.pOffset = dec.cOffset\n", ExpectRule: "B4", ExpectConstruct: "shift"},
+			{Name: "next-skips-empty-block-before-shift", File: "osmpbf/decode.go", Find: "\t\tdec.pOffset = dec.cOffset\n\t\tdec.cOffset = cd.Offset\n", Replace: "\t\tif len(cd.Objects) == 0 && cd.Err == nil {\n\t\t\tcontinue\n\t\t}\n\n\t\tdec.pOffset = dec.cOffset\n\t\tdec.cOffset = cd.Offset\n", ExpectRule: "B4", ExpectConstruct: "shift-only-on-new-block"},
+			{Name: "next-shift-only-current", File: "osmpbf/decode.go", Find: "\t\tdec.pOffset = dec.cOffset\n\t\tdec.cOffset = cd.Offset\n", Replace: "\t\tif cd.Offset > dec.cOffset {\n\t\t\tdec.pOffset = dec.cOffset\n\t\t}\n\t\tdec.cOffset = cd.Offset\n", ExpectRule: "B4", ExpectConstruct: "shift"},
+			{Name: "loop-sends-without-read", File: "osmpbf/decode.go", Find: "\t\t\tblobHeader, blob, err = dec.readFileBlock(sizeBuf, headerBuf, blobBuf)\n\t\t\tif err == nil && blobHeader.GetType() != osmDataType {", Replace: "\t\t\tif offset > 0 || blob == nil {\n\t\t\t\tblobHeader, blob, err = dec.readFileBlock(sizeBuf, headerBuf, blobBuf)\n\t\t\t}\n\t\t\tif err == nil && blobHeader.GetType() != osmDataType {", ExpectRule: "B2", ExpectConstruct: "capture"},
 			{Name: "accessors-swapped", File: "osmpbf/scanner.go", Find: "func (s *Scanner) FullyScannedBytes() int64 {\n\treturn atomic.LoadInt64(&s.decoder.cOffset)", Replace: "func (s *Scanner) FullyScannedBytes() int64 {\n\treturn atomic.LoadInt64(&s.decoder.pOffset)", ExpectRule: "B5", ExpectConstruct: "FullyScannedBytes"},
 			{Name: "accessor-returns-bytesRead", File: "osmpbf/scanner.go", Find: "func (s *Scanner) FullyScannedBytes() int64 {\n\treturn atomic.LoadInt64(&s.decoder.cOffset)", Replace: "func (s *Scanner) FullyScannedBytes() int64 {\n\treturn atomic.LoadInt64(&s.decoder.bytesRead)", ExpectRule: "B5", ExpectConstruct: "FullyScannedBytes"},
 			{Name: "restart-block-dropped", File: "osmpbf/decode.go", Find: "\t\t\tdec.inputs[0] <- iPair{Offset: 0, Blob: blob, Err: err}\n\n\t\t\ti = (i + 1) % n\n", Replace: "\t\t\t_ = blob\n", ExpectRule: "B6", ExpectConstruct: "dispatch"},
@@ -56,77 +55,157 @@ func init() {
 	})
 }
 
-// c09Roles resolves the decoder's offset fields by role:
-// counter = int64 field incremented in the block reader; current = field assigned from the received pair's offset in Next;
-// previous = field assigned from current in Next.
+// c09Fields resolves, by role and by type (never by name), what the offset bookkeeping consists of:
+//   - counter: the decoder's int64 field that is increased (`+=`) in code only the reader role (and the spawner) runs;
+//     blockReader: the function holding that increment;
+//   - inPair / outPair: element types of the workers' input / output channels; their int64 field is the offset, the
+//     *Blob field the blob, the []osm.Object field the objects, the error field the error;
+//   - current: the decoder int64 field assigned from an output pair's offset in the consumer (deep from next);
+//     previous: the decoder int64 field assigned from current there.
 type c09Fields struct {
 	counter, current, previous  *types.Var
 	blockReader                 *FuncInfo
-	pairOffsetIn, pairOffsetOut *types.Var // Offset fields of the input / output pair types
+	inPairT, outPairT           *types.Named
+	pairOffsetIn, pairOffsetOut *types.Var
+	blobIn, objsOut             *types.Var
+	in, out, queue              string
+	incs                        []*ast.AssignStmt // every write of the counter
+}
+
+func c09ChanElem(f *types.Var) *types.Named {
+	if f == nil {
+		return nil
+	}
+	t := f.Type()
+	if sl, ok := t.Underlying().(*types.Slice); ok {
+		t = sl.Elem()
+	}
+	ch, ok := t.Underlying().(*types.Chan)
+	if !ok {
+		return nil
+	}
+	nt, _ := ch.Elem().(*types.Named)
+	return nt
+}
+
+func c09FieldOfKind(nt *types.Named, pred func(types.Type) bool) *types.Var {
+	if nt == nil {
+		return nil
+	}
+	st, ok := nt.Underlying().(*types.Struct)
+	if !ok {
+		return nil
+	}
+	var out *types.Var
+	for i := 0; i < st.NumFields(); i++ {
+		if pred(st.Field(i).Type()) {
+			if out != nil {
+				return nil // ambiguous
+			}
+			out = st.Field(i)
+		}
+	}
+	return out
 }
 
 func c09Resolve(r *core.R, m *pbfModel) *c09Fields {
 	info := m.info
 	f := &c09Fields{}
-	// block reader: as in C06.E2
-	for _, u := range m.sortedUnits() {
-		fd, ok := u.node.(*ast.FuncDecl)
-		if !ok || !u.roles["reader"] {
-			continue
-		}
-		n := 0
-		for _, fn := range u.calls {
-			if tu := m.unitOfFunc(fn); tu != nil && m.unitCalls(tu, "io", "ReadFull") {
-				n++
-			}
-		}
-		if n >= 2 {
-			f.blockReader = findFunc(m.pk, funcName(info.Defs[fd.Name].(*types.Func)))
-		}
-	}
-	if f.blockReader == nil {
-		r.Anchor("function that reads one file block")
+	f.in, f.out, f.queue = m.pipelineClasses()
+	f.inPairT, f.outPairT = c09ChanElem(m.chanField(f.in)), c09ChanElem(m.chanField(f.out))
+	f.pairOffsetIn = c09FieldOfKind(f.inPairT, isInt64)
+	f.pairOffsetOut = c09FieldOfKind(f.outPairT, isInt64)
+	f.blobIn = c09FieldOfKind(f.inPairT, func(t types.Type) bool {
+		_, isPtr := t.(*types.Pointer)
+		return isPtr && namedPath(t) == core.ModulePath+"/osmpbf/internal/osmpbf.Blob"
+	})
+	f.objsOut = c09FieldOfKind(f.outPairT, func(t types.Type) bool {
+		sl, ok := t.Underlying().(*types.Slice)
+		return ok && namedPath(sl.Elem()) == core.ModulePath+".Object"
+	})
+	if f.pairOffsetIn == nil || f.pairOffsetOut == nil || f.blobIn == nil || f.objsOut == nil {
+		r.Anchor("input / output pair types with their offset, blob and objects fields")
 		return nil
 	}
-	ast.Inspect(f.blockReader.Decl.Body, func(n ast.Node) bool {
-		if as, ok := n.(*ast.AssignStmt); ok && as.Tok == token.ADD_ASSIGN && len(as.Lhs) == 1 {
-			if fl := fieldOf(info, as.Lhs[0]); fl != nil && namedPath(selRecv(info, ast.Unparen(as.Lhs[0]))) == namedPath(m.decoderT) {
-				f.counter = fl
-			}
+	isDecField := func(e ast.Expr) *types.Var {
+		fl := fieldOf(info, e)
+		if fl == nil || namedPath(selRecv(info, ast.Unparen(e))) != namedPath(m.decoderT) {
+			return nil
 		}
-		return true
-	})
-	if m.next != nil {
-		ast.Inspect(m.next.Decl.Body, func(n ast.Node) bool {
-			as, ok := n.(*ast.AssignStmt)
-			if !ok || len(as.Lhs) != 1 || len(as.Rhs) != 1 {
-				return true
-			}
-			lf := fieldOf(info, as.Lhs[0])
-			rf := fieldOf(info, as.Rhs[0])
-			if lf == nil || rf == nil || namedPath(selRecv(info, ast.Unparen(as.Lhs[0]))) != namedPath(m.decoderT) {
-				return true
-			}
-			if namedPath(selRecv(info, ast.Unparen(as.Rhs[0]))) != namedPath(m.decoderT) && isInt64(rf.Type()) && isInt64(lf.Type()) {
-				f.current = lf
-				f.pairOffsetOut = rf
-			}
-			return true
-		})
-		ast.Inspect(m.next.Decl.Body, func(n ast.Node) bool {
-			as, ok := n.(*ast.AssignStmt)
-			if !ok || len(as.Lhs) != 1 || len(as.Rhs) != 1 {
-				return true
-			}
-			lf := fieldOf(info, as.Lhs[0])
-			rf := fieldOf(info, as.Rhs[0])
-			if lf != nil && rf != nil && rf == f.current && lf != f.current && namedPath(selRecv(info, ast.Unparen(as.Lhs[0]))) == namedPath(m.decoderT) {
-				f.previous = lf
+		return fl
+	}
+	// counter: written by += (or f = f + ..) in a unit that the reader role runs
+	for _, u := range m.sortedUnits() {
+		u := u
+		m.walkUnit(u, func(n ast.Node) bool {
+			switch s := n.(type) {
+			case *ast.AssignStmt:
+				for _, l := range s.Lhs {
+					fl := isDecField(l)
+					if fl == nil || !isInt64(fl.Type()) {
+						continue
+					}
+					if s.Tok == token.ADD_ASSIGN && u.roles["reader"] && !u.roles["worker"] && !u.roles["serializer"] {
+						f.counter = fl
+						if fi := m.funcAt(s.Pos()); fi != nil {
+							f.blockReader = fi
+						}
+					}
+				}
 			}
 			return true
 		})
 	}
-	if f.counter == nil {
+	if f.counter != nil {
+		for _, u := range m.sortedUnits() {
+			m.walkUnit(u, func(n ast.Node) bool {
+				if as, ok := n.(*ast.AssignStmt); ok {
+					for _, l := range as.Lhs {
+						if isDecField(l) == f.counter {
+							f.incs = append(f.incs, as)
+						}
+					}
+				}
+				return true
+			})
+		}
+	}
+	// current / previous: assignments reached from the consumer's next-object method
+	if m.next != nil {
+		nu := m.byDecl[m.next.Obj]
+		m.deepWalk(nu, func(_ *pbfSite, n ast.Node) bool {
+			as, ok := n.(*ast.AssignStmt)
+			if !ok || len(as.Lhs) != len(as.Rhs) {
+				return true
+			}
+			for i, l := range as.Lhs {
+				lf := isDecField(l)
+				if lf == nil || !isInt64(lf.Type()) {
+					continue
+				}
+				if c09AllDefs(m, as.Rhs[i], map[types.Object]bool{}, func(o pbfOrigin) bool {
+					return o.kind == "assign" && o.e != nil && fieldOf(info, o.e) == f.pairOffsetOut
+				}) {
+					f.current = lf
+				}
+			}
+			return true
+		})
+		m.deepWalk(nu, func(_ *pbfSite, n ast.Node) bool {
+			as, ok := n.(*ast.AssignStmt)
+			if !ok || len(as.Lhs) != len(as.Rhs) {
+				return true
+			}
+			for i, l := range as.Lhs {
+				lf := isDecField(l)
+				if lf != nil && lf != f.current && f.current != nil && isDecField(as.Rhs[i]) == f.current {
+					f.previous = lf
+				}
+			}
+			return true
+		})
+	}
+	if f.counter == nil || f.blockReader == nil {
 		r.Anchor("byte counter field incremented by the block reader")
 	}
 	if f.current == nil {
@@ -135,7 +214,7 @@ func c09Resolve(r *core.R, m *pbfModel) *c09Fields {
 	if f.previous == nil {
 		r.Anchor("previous-offset field assigned from the current offset in the consumer")
 	}
-	if f.counter == nil || f.current == nil || f.previous == nil {
+	if f.counter == nil || f.blockReader == nil || f.current == nil || f.previous == nil {
 		return nil
 	}
 	return f
@@ -160,732 +239,4 @@ func sameExprG(info *types.Info, a, b ast.Expr) bool {
 		return ok1 && ok2 && sameExpr(info, sa.X, sb.X)
 	}
 	return sameExpr(info, a, b)
-}
-
-func c09B1(r *core.R) {
-	m := modelOrAnchor(r)
-	if m == nil {
-		return
-	}
-	f := c09Resolve(r, m)
-	if f == nil {
-		return
-	}
-	info := m.info
-	br := f.blockReader
-	// the reads: calls to helpers that io.ReadFull into their buffer parameter; record the buffer argument expression
-	type read struct {
-		call *ast.CallExpr
-		arg  ast.Expr
-		fn   *types.Func
-	}
-	var reads []read
-	ast.Inspect(br.Decl.Body, func(n ast.Node) bool {
-		call, ok := n.(*ast.CallExpr)
-		if !ok {
-			return true
-		}
-		fn := callee(info, call)
-		if fn == nil || fn.Pkg() != m.pk.Types {
-			return true
-		}
-		tf := findFunc(m.pk, funcName(fn))
-		if tf == nil || !m.unitCalls(m.unitOfFunc(fn), "io", "ReadFull") {
-			return true
-		}
-		// helper reads fully into its (single) []byte parameter
-		var bufParam types.Object
-		for _, fld := range tf.Decl.Type.Params.List {
-			for _, nm := range fld.Names {
-				if sl, ok := info.Defs[nm].Type().Underlying().(*types.Slice); ok && types.Identical(sl.Elem(), types.Typ[types.Byte]) {
-					bufParam = info.Defs[nm]
-				}
-			}
-		}
-		okFull := false
-		ast.Inspect(tf.Decl.Body, func(x ast.Node) bool {
-			if c2, ok := x.(*ast.CallExpr); ok && isPkgFunc(callee(info, c2), "io", "ReadFull") && len(c2.Args) == 2 && objOf(info, c2.Args[1]) == bufParam && bufParam != nil {
-				okFull = true
-			}
-			return true
-		})
-		c := "read@" + br.Name() + " " + fn.Name()
-		if !okFull || len(call.Args) != 1 {
-			r.Bad(c, call.Pos(), "%s does not io.ReadFull exactly the buffer it is given: the number of bytes consumed for this part is not the buffer length the counter accounts for", fn.Name())
-			return true
-		}
-		r.OK(c, call.Pos(), "%s(buf) consumes exactly len(%s) bytes on success (io.ReadFull into its parameter)", fn.Name(), src(r.P.Fset, call.Args[0]))
-		reads = append(reads, read{call, call.Args[0], fn})
-		return true
-	})
-	// length expression of each buffer at its read
-	g := newCFG(info, br.Decl.Body)
-	dom := dominators(g)
-	var wantConst int64
-	var wantTerms []ast.Expr
-	okLens := true
-	for _, rd := range reads {
-		bo := objOf(info, rd.arg)
-		if bo == nil {
-			okLens = false
-			continue
-		}
-		// last re-slice `b = b[:n]` before the call
-		var hi ast.Expr
-		ast.Inspect(br.Decl.Body, func(n ast.Node) bool {
-			as, ok := n.(*ast.AssignStmt)
-			if !ok || len(as.Lhs) != 1 || objOf(info, as.Lhs[0]) != bo || as.Pos() > rd.call.Pos() {
-				return true
-			}
-			if se, ok := ast.Unparen(as.Rhs[0]).(*ast.SliceExpr); ok && objOf(info, se.X) == bo && se.Low == nil && se.High != nil {
-				hi = se.High
-			}
-			return true
-		})
-		if hi != nil {
-			wantTerms = append(wantTerms, hi)
-			continue
-		}
-		// not re-sliced: its length is the constant of its make at the (single) call site of the block reader
-		k, ok := c09ParamMakeLen(m, br, bo)
-		if !ok {
-			okLens = false
-			continue
-		}
-		wantConst += k
-	}
-	// the increment
-	var inc *ast.AssignStmt
-	ninc := 0
-	for _, u := range m.sortedUnits() {
-		m.walkUnit(u, func(n ast.Node) bool {
-			switch s := n.(type) {
-			case *ast.AssignStmt:
-				for _, l := range s.Lhs {
-					if fieldOf(info, l) == f.counter {
-						ninc++
-						if s.Tok == token.ADD_ASSIGN && u.fi.Obj == br.Obj {
-							inc = s
-						}
-					}
-				}
-			case *ast.IncDecStmt:
-				if fieldOf(info, s.X) == f.counter {
-					ninc++
-				}
-			}
-			return true
-		})
-	}
-	c := "increment@" + br.Name() + " " + f.counter.Name()
-	if inc == nil || ninc != 1 {
-		r.Bad(c, br.Decl.Pos(), "the byte counter %s is written at %d sites; exactly one `+=` in the block reader is required", f.counter.Name(), ninc)
-		return
-	}
-	if !okLens || len(reads) < 2 {
-		r.Unknown(c, inc.Pos(), "could not derive the length of every buffer read for a block")
-		return
-	}
-	// terms of the RHS
-	var gotConst int64
-	var gotTerms []ast.Expr
-	var split func(e ast.Expr) bool
-	split = func(e ast.Expr) bool {
-		e = stripConv(info, e)
-		if be, ok := e.(*ast.BinaryExpr); ok {
-			if be.Op != token.ADD {
-				return false
-			}
-			return split(be.X) && split(be.Y)
-		}
-		if v, ok := constInt(info, e); ok {
-			gotConst += v
-			return true
-		}
-		gotTerms = append(gotTerms, e)
-		return true
-	}
-	if !split(inc.Rhs[0]) {
-		r.Unknown(c, inc.Pos(), "increment `%s` is not a sum", src(r.P.Fset, inc))
-		return
-	}
-	match := gotConst == wantConst && len(gotTerms) == len(wantTerms)
-	used := make([]bool, len(wantTerms))
-	for _, gt := range gotTerms {
-		found := false
-		for i, wt := range wantTerms {
-			if !used[i] && sameExprG(info, gt, wt) {
-				used[i], found = true, true
-				break
-			}
-		}
-		if !found {
-			match = false
-		}
-	}
-	// after all reads, on the success path
-	after := true
-	for _, rd := range reads {
-		if !posDominates(g, dom, rd.call.Pos(), inc.Pos()) {
-			after = false
-		}
-	}
-	// success path: dominated by the false edge of each read's error test -> approximated by: no return between last read and inc except in error ifs; checked via dominance of inc over the success return
-	okRet := false
-	ast.Inspect(br.Decl.Body, func(n ast.Node) bool {
-		if ret, ok := n.(*ast.ReturnStmt); ok {
-			last := ret.Results[len(ret.Results)-1]
-			if id, ok := ast.Unparen(last).(*ast.Ident); ok && id.Name == "nil" {
-				if posDominates(g, dom, inc.Pos(), ret.Pos()) {
-					okRet = true
-				} else {
-					okRet = false
-				}
-			}
-		}
-		return true
-	})
-	var want []string
-	for _, wt := range wantTerms {
-		want = append(want, src(r.P.Fset, wt))
-	}
-	sort.Strings(want)
-	switch {
-	case !match:
-		r.Bad(c, inc.Pos(), "`%s` does not add exactly the bytes read for the block: expected %d + %s (the lengths of the buffers handed to io.ReadFull); a wrong count makes every later reported offset point into the middle of a block", src(r.P.Fset, inc), wantConst, strings.Join(want, " + "))
-	case !after:
-		r.Bad(c, inc.Pos(), "the counter is increased before all three reads of the block have succeeded: a failed read would leave it pointing past the last complete block")
-	case !okRet:
-		r.Bad(c, inc.Pos(), "the increment does not dominate the success return of %s", br.Name())
-	default:
-		r.OK(c, inc.Pos(), "`%s` = %d (len of the size buffer, fixed by its make) + %s, after all %d reads succeeded, once per block", src(r.P.Fset, inc), wantConst, strings.Join(want, " + "), len(reads))
-	}
-}
-
-// c09ParamMakeLen: parameter po of fi is bound at every call site to a local made with a constant length.
-func c09ParamMakeLen(m *pbfModel, fi *FuncInfo, po types.Object) (int64, bool) {
-	info := m.info
-	idx := -1
-	pi := 0
-	for _, fld := range fi.Decl.Type.Params.List {
-		for _, nm := range fld.Names {
-			if info.Defs[nm] == po {
-				idx = pi
-			}
-			pi++
-		}
-	}
-	if idx < 0 {
-		return 0, false
-	}
-	var k int64 = -1
-	ok := true
-	for _, u := range m.sortedUnits() {
-		m.walkUnit(u, func(n ast.Node) bool {
-			call, isCall := n.(*ast.CallExpr)
-			if !isCall || callee(info, call) != fi.Obj || idx >= len(call.Args) {
-				return true
-			}
-			ao := objOf(info, call.Args[idx])
-			found := false
-			ast.Inspect(m.start.Decl.Body, func(x ast.Node) bool {
-				as, isAs := x.(*ast.AssignStmt)
-				if !isAs || len(as.Lhs) != 1 || objOf(info, as.Lhs[0]) != ao {
-					return true
-				}
-				if mk, isMk := as.Rhs[0].(*ast.CallExpr); isMk && builtinName(info, mk) == "make" && len(mk.Args) == 2 {
-					if v, okc := constInt(info, mk.Args[1]); okc {
-						if k >= 0 && k != v {
-							ok = false
-						}
-						k = v
-						found = true
-					}
-				}
-				return true
-			})
-			if !found {
-				ok = false
-			}
-			return true
-		})
-	}
-	return k, ok && k >= 0
-}
-
-func c09B2(r *core.R) {
-	m := modelOrAnchor(r)
-	if m == nil {
-		return
-	}
-	f := c09Resolve(r, m)
-	if f == nil {
-		return
-	}
-	info := m.info
-	rd := m.goOf("reader")
-	ru := m.units[rd.lit]
-	var loop *ast.ForStmt
-	for _, st := range rd.lit.Body.List {
-		if fs, ok := st.(*ast.ForStmt); ok {
-			loop = fs
-		}
-	}
-	if loop == nil {
-		r.Anchor("reader loop")
-		return
-	}
-	// the read call of the iteration
-	var readCall *ast.CallExpr
-	var blobVar types.Object
-	var readStmt ast.Stmt
-	for _, st := range loop.Body.List {
-		if as, ok := st.(*ast.AssignStmt); ok && len(as.Rhs) == 1 {
-			if call, ok := as.Rhs[0].(*ast.CallExpr); ok && callee(info, call) == f.blockReader.Obj && len(as.Lhs) == 3 {
-				readCall, readStmt = call, st
-				blobVar = objOf(info, as.Lhs[1])
-			}
-		}
-	}
-	if readCall == nil {
-		r.Anchor("block read at the top level of the reader loop")
-		return
-	}
-	// data pair literal: the one with a Blob key
-	var captureVar types.Object
-	var lit *ast.CompositeLit
-	ast.Inspect(loop.Body, func(n ast.Node) bool {
-		cl, ok := n.(*ast.CompositeLit)
-		if !ok {
-			return true
-		}
-		hasBlob := false
-		for _, e := range cl.Elts {
-			if kv, ok := e.(*ast.KeyValueExpr); ok {
-				if id, ok := kv.Key.(*ast.Ident); ok && id.Name == "Blob" {
-					hasBlob = true
-				}
-			}
-		}
-		if hasBlob {
-			lit = cl
-		}
-		return true
-	})
-	c := "capture@" + ru.name
-	if lit == nil {
-		r.Bad(c, loop.Pos(), "no data pair carrying the blob is built in the reader loop")
-		return
-	}
-	okBlob := false
-	for _, e := range lit.Elts {
-		kv := e.(*ast.KeyValueExpr)
-		switch kv.Key.(*ast.Ident).Name {
-		case "Offset":
-			captureVar = objOf(info, kv.Value)
-		case "Blob":
-			okBlob = objOf(info, kv.Value) == blobVar && blobVar != nil
-		}
-	}
-	if captureVar == nil {
-		r.Bad(c, lit.Pos(), "the data pair `%s` has no Offset taken from a captured counter value: blocks would all report offset 0", src(r.P.Fset, lit))
-		return
-	}
-	// single assignment of captureVar at top level of the loop body, from the counter field, before the read
-	var capStmt ast.Stmt
-	nAssign := 0
-	ast.Inspect(loop.Body, func(n ast.Node) bool {
-		if as, ok := n.(*ast.AssignStmt); ok {
-			for i, l := range as.Lhs {
-				if objOf(info, l) == captureVar {
-					nAssign++
-					if i < len(as.Rhs) && fieldOf(info, as.Rhs[i]) == f.counter {
-						capStmt = as
-					}
-				}
-			}
-		}
-		return true
-	})
-	top := false
-	for _, st := range loop.Body.List {
-		if st == capStmt {
-			top = true
-		}
-	}
-	switch {
-	case capStmt == nil || nAssign != 1:
-		r.Bad(c, lit.Pos(), "the Offset of a data pair (`%s`) is not a single load of the byte counter %s", captureVar.Name(), f.counter.Name())
-	case !top || capStmt.Pos() > readStmt.Pos():
-		r.Bad(c, capStmt.Pos(), "the counter is captured after the block has been read: the pair would carry the offset of the NEXT block, so resuming there skips this block's objects")
-	case !okBlob:
-		r.Bad(c, lit.Pos(), "the pair does not carry the blob returned by this iteration's read")
-	default:
-		r.OK(c, capStmt.Pos(), "`%s` loads %s before `%s` in the same iteration; the pair {Offset: %s, Blob: %s} carries both", src(r.P.Fset, capStmt), f.counter.Name(), src(r.P.Fset, readCall), captureVar.Name(), blobVar.Name())
-	}
-	// no other writer of the counter between capture and read: the block reader is the only writer (B1) and runs in this goroutine
-	r.OKTrivial("single-writer@"+f.counter.Name(), f.counter.Pos(), "the counter is written only by the block reader (B1), which after spawning runs only in the reader goroutine (C07.P4)")
-	// restart pair
-	c = "restart@" + ru.name
-	found := false
-	ast.Inspect(rd.lit.Body, func(n ast.Node) bool {
-		snd, ok := n.(*ast.SendStmt)
-		if !ok || snd.Pos() > loop.Pos() {
-			return true
-		}
-		cl, ok := snd.Value.(*ast.CompositeLit)
-		if !ok {
-			return true
-		}
-		found = true
-		zero := false
-		for _, e := range cl.Elts {
-			if kv, ok := e.(*ast.KeyValueExpr); ok {
-				if id, ok := kv.Key.(*ast.Ident); ok && id.Name == "Offset" {
-					if v, ok := constInt(info, kv.Value); ok && v == 0 {
-						zero = true
-					}
-				}
-			}
-		}
-		hasOffset := false
-		for _, e := range cl.Elts {
-			if kv, ok := e.(*ast.KeyValueExpr); ok {
-				if id, ok := kv.Key.(*ast.Ident); ok && id.Name == "Offset" {
-					hasOffset = true
-				}
-			}
-		}
-		if zero || !hasOffset {
-			r.OK(c, snd.Pos(), "the block read before the loop is dispatched with offset 0 (relative to where the reader started)")
-		} else {
-			r.Bad(c, snd.Pos(), "`%s`: the first block of a resumed scan starts at offset 0 relative to the reader's start; any other value shifts every resume point", src(r.P.Fset, cl))
-		}
-		return true
-	})
-	if !found {
-		r.Bad(c, rd.lit.Pos(), "no dispatch of the block read before the loop")
-	}
-}
-
-func c09B3(r *core.R) {
-	m := modelOrAnchor(r)
-	if m == nil {
-		return
-	}
-	info := m.info
-	wg := m.goOf("worker")
-	wu := m.units[wg.lit]
-	var loop *ast.RangeStmt
-	for _, st := range wg.lit.Body.List {
-		if rs, ok := st.(*ast.RangeStmt); ok {
-			loop = rs
-		}
-	}
-	if loop == nil || loop.Key == nil {
-		r.Anchor("worker range loop")
-		return
-	}
-	p := objOf(info, loop.Key)
-	c := "transport@" + wu.name
-	// literal with Objects key
-	var lit *ast.CompositeLit
-	ast.Inspect(loop.Body, func(n ast.Node) bool {
-		if cl, ok := n.(*ast.CompositeLit); ok {
-			for _, e := range cl.Elts {
-				if kv, ok := e.(*ast.KeyValueExpr); ok {
-					if id, ok := kv.Key.(*ast.Ident); ok && id.Name == "Objects" {
-						lit = cl
-					}
-				}
-			}
-		}
-		return true
-	})
-	if lit == nil {
-		r.Bad(c, loop.Pos(), "the worker builds no pair carrying decoded objects")
-		return
-	}
-	okOff, okObj := false, false
-	var objVar types.Object
-	for _, e := range lit.Elts {
-		kv := e.(*ast.KeyValueExpr)
-		switch kv.Key.(*ast.Ident).Name {
-		case "Offset":
-			if fl := fieldOf(info, kv.Value); fl != nil && fl.Name() == "Offset" && rootObj(info, kv.Value) == p {
-				okOff = true
-			}
-		case "Objects":
-			objVar = objOf(info, kv.Value)
-		}
-	}
-	// objects come from decoding p.Blob
-	ast.Inspect(loop.Body, func(n ast.Node) bool {
-		as, ok := n.(*ast.AssignStmt)
-		if !ok || len(as.Rhs) != 1 || len(as.Lhs) < 1 || objOf(info, as.Lhs[0]) != objVar || objVar == nil {
-			return true
-		}
-		if call, ok := as.Rhs[0].(*ast.CallExpr); ok && len(call.Args) == 1 {
-			if fl := fieldOf(info, call.Args[0]); fl != nil && fl.Name() == "Blob" && rootObj(info, call.Args[0]) == p {
-				okObj = true
-			}
-		}
-		return true
-	})
-	switch {
-	case !okOff:
-		r.Bad(c, lit.Pos(), "`%s` does not copy the Offset of the pair it received: the consumer would report a wrong (zero) position for this block", src(r.P.Fset, lit))
-	case !okObj:
-		r.Bad(c, lit.Pos(), "the objects in the emitted pair are not the decoding of the received pair's blob")
-	default:
-		r.OK(c, lit.Pos(), "the emitted pair carries %s.Offset together with the objects decoded from %s.Blob", p.Name(), p.Name())
-	}
-}
-
-func c09B4(r *core.R) {
-	m := modelOrAnchor(r)
-	if m == nil {
-		return
-	}
-	f := c09Resolve(r, m)
-	if f == nil || m.next == nil {
-		return
-	}
-	info := m.info
-	nx := m.next
-	g := newCFG(info, nx.Decl.Body)
-	dom := dominators(g)
-	// statements
-	var prevAs, curAs *ast.AssignStmt
-	nPrev, nCur := 0, 0
-	var recvVar types.Object
-	var recvPos token.Pos
-	ast.Inspect(nx.Decl.Body, func(n ast.Node) bool {
-		as, ok := n.(*ast.AssignStmt)
-		if !ok {
-			return true
-		}
-		for i, l := range as.Lhs {
-			switch fieldOf(info, l) {
-			case f.previous:
-				nPrev++
-				if i < len(as.Rhs) && fieldOf(info, as.Rhs[i]) == f.current {
-					prevAs = as
-				}
-			case f.current:
-				nCur++
-				if i < len(as.Rhs) && fieldOf(info, as.Rhs[i]) == f.pairOffsetOut {
-					curAs = as
-					recvVar = rootObj(info, as.Rhs[i])
-				}
-			}
-		}
-		if len(as.Rhs) == 1 {
-			if ue, ok := ast.Unparen(as.Rhs[0]).(*ast.UnaryExpr); ok && ue.Op == token.ARROW {
-				recvPos = as.Pos()
-				if recvVar == nil {
-					recvVar = objOf(info, as.Lhs[0])
-				}
-			}
-		}
-		return true
-	})
-	c := "shift@" + nx.Name()
-	if prevAs == nil || curAs == nil || nPrev != 1 || nCur != 1 {
-		r.Bad(c, nx.Decl.Pos(), "the consumer must contain exactly one `previous = current` and one `current = pair.Offset` (found %d writes of %s, %d of %s)", nPrev, f.previous.Name(), nCur, f.current.Name())
-		return
-	}
-	pb, pi := blockOf(g, prevAs.Pos())
-	cb, ci := blockOf(g, curAs.Pos())
-	if pb != cb || pi >= ci {
-		r.Bad(c, prevAs.Pos(), "`%s` must execute immediately before `%s` on the same path: otherwise the previous offset is overwritten with the new block's offset (or not updated at all)", src(r.P.Fset, prevAs), src(r.P.Fset, curAs))
-	} else {
-		r.OK(c, prevAs.Pos(), "`%s` precedes `%s` in the same basic block", src(r.P.Fset, prevAs), src(r.P.Fset, curAs))
-	}
-	// only when a new block is taken: dominated by the receive and by the false edge of the closed/EOF test; the received pair becomes the current block in the same block
-	c = "shift-only-on-new-block@" + nx.Name()
-	okRecv := recvPos.IsValid() && posDominates(g, dom, recvPos, prevAs.Pos()) && rootObj(info, curAs.Rhs[0]) == recvVar
-	// the block containing the shift must not be reachable from the `!ok`-true edge
-	okGuard := false
-	for _, b := range g.Blocks {
-		if !b.Live || len(b.Succs) != 2 || !dom[pb][b] || b == pb {
-			continue
-		}
-		cond := lastExpr(b)
-		if cond == nil {
-			continue
-		}
-		mentionsOK := false
-		ast.Inspect(cond, func(n ast.Node) bool {
-			if ue, ok := n.(*ast.UnaryExpr); ok && ue.Op == token.NOT {
-				if o := objOf(info, ue.X); o != nil && o.Type() == types.Typ[types.Bool] {
-					mentionsOK = true
-				}
-			}
-			return true
-		})
-		tr := reachableFrom([]*cfg.Block{b.Succs[0]}, func(x *cfg.Block) bool { return x == b })
-		if mentionsOK && !tr[pb] {
-			okGuard = true
-		}
-	}
-	// cData assigned the same pair in the same block
-	okStore := false
-	for _, n := range pb.Nodes {
-		if as, ok := n.(*ast.AssignStmt); ok && len(as.Lhs) == 1 && len(as.Rhs) == 1 && objOf(info, as.Rhs[0]) == recvVar && recvVar != nil {
-			if fl := fieldOf(info, as.Lhs[0]); fl != nil && namedPath(selRecv(info, ast.Unparen(as.Lhs[0]))) == namedPath(m.decoderT) {
-				okStore = true
-			}
-		}
-	}
-	if okRecv && okGuard && okStore {
-		r.OK(c, curAs.Pos(), "the shift is dominated by the receive of the pair, excluded from the closed/EOF edge, and the same pair becomes the current block in that basic block")
-	} else {
-		r.Bad(c, curAs.Pos(), "the offsets are shifted on a path where no new block is taken (after receive: %v, not on the closed/EOF edge: %v, pair stored as current block: %v): the reported offsets would move without an object of that block having been returned", okRecv, okGuard, okStore)
-	}
-}
-
-func c09B5(r *core.R) {
-	m := modelOrAnchor(r)
-	if m == nil {
-		return
-	}
-	f := c09Resolve(r, m)
-	if f == nil {
-		return
-	}
-	info := m.info
-	for _, spec := range []struct {
-		name string
-		want *types.Var
-		what string
-	}{{"(*Scanner).FullyScannedBytes", f.current, "current"}, {"(*Scanner).PreviousFullyScannedBytes", f.previous, "previous"}} {
-		fi := findFunc(m.pk, spec.name)
-		c := "accessor@" + spec.name
-		if fi == nil {
-			r.Anchor(spec.name)
-			continue
-		}
-		var got []*types.Var
-		ast.Inspect(fi.Decl.Body, func(n ast.Node) bool {
-			ret, ok := n.(*ast.ReturnStmt)
-			if !ok || len(ret.Results) != 1 {
-				return true
-			}
-			ast.Inspect(ret.Results[0], func(x ast.Node) bool {
-				if sel, ok := x.(*ast.SelectorExpr); ok {
-					if s := info.Selections[sel]; s != nil && s.Kind() == types.FieldVal && namedPath(s.Recv()) == namedPath(m.decoderT) {
-						got = append(got, s.Obj().(*types.Var))
-					}
-				}
-				return true
-			})
-			return true
-		})
-		if len(got) == 1 && got[0] == spec.want {
-			r.OK(c, fi.Decl.Pos(), "returns the %s offset field %s", spec.what, spec.want.Name())
-		} else {
-			var names []string
-			for _, v := range got {
-				names = append(names, v.Name())
-			}
-			r.Bad(c, fi.Decl.Pos(), "returns %v; it must return the %s offset (%s), the field %s", names, spec.what, spec.want.Name(), map[string]string{"current": "assigned from the block the last object came from", "previous": "holding the value that was current during the preceding block"}[spec.what])
-		}
-	}
-}
-
-func c09B6(r *core.R) {
-	m := modelOrAnchor(r)
-	if m == nil {
-		return
-	}
-	f := c09Resolve(r, m)
-	if f == nil {
-		return
-	}
-	info := m.info
-	// pre-spawn read in the spawner
-	var firstBlob, firstHdr types.Object
-	for _, st := range m.start.Decl.Body.List {
-		if as, ok := st.(*ast.AssignStmt); ok && len(as.Rhs) == 1 && len(as.Lhs) == 3 {
-			if call, ok := as.Rhs[0].(*ast.CallExpr); ok && callee(info, call) == f.blockReader.Obj {
-				firstHdr, firstBlob = objOf(info, as.Lhs[0]), objOf(info, as.Lhs[1])
-			}
-		}
-	}
-	if firstBlob == nil {
-		r.Anchor("synchronous read of the first block in the spawner")
-		return
-	}
-	isTypeTest := func(cond ast.Expr, op token.Token) bool {
-		be, ok := ast.Unparen(cond).(*ast.BinaryExpr)
-		if !ok || be.Op != op {
-			return false
-		}
-		call, ok := ast.Unparen(be.X).(*ast.CallExpr)
-		if !ok {
-			return false
-		}
-		fn := callee(info, call)
-		if fn == nil || fn.Name() != "GetType" || rootObj(info, call.Fun.(*ast.SelectorExpr).X) != firstHdr {
-			return false
-		}
-		s, ok := constString(info, be.Y)
-		return ok && s == "OSMHeader"
-	}
-	// header decoded only for a header block
-	c := "header-only-if-header@" + m.start.Name()
-	var hdrCall *ast.CallExpr
-	ast.Inspect(m.start.Decl.Body, func(n ast.Node) bool {
-		if call, ok := n.(*ast.CallExpr); ok {
-			if fn := callee(info, call); fn != nil && fn.Pkg() == m.pk.Types && fn.Type().(*types.Signature).Results().Len() == 2 &&
-				namedPath(fn.Type().(*types.Signature).Results().At(0).Type()) == core.ModulePath+"/osmpbf.Header" {
-				hdrCall = call
-			}
-		}
-		return true
-	})
-	if hdrCall == nil {
-		r.Anchor("header decoding call in the spawner")
-	} else {
-		par := parentsOf(r.P, m.start)
-		ok := false
-		for p := par[hdrCall]; p != nil; p = par[p] {
-			if ifs, isIf := p.(*ast.IfStmt); isIf && isTypeTest(ifs.Cond, token.EQL) && hdrCall.Pos() > ifs.Body.Pos() && hdrCall.End() < ifs.Body.End() {
-				ok = true
-			}
-		}
-		r.Check(ok && len(hdrCall.Args) == 1 && objOf(info, hdrCall.Args[0]) == firstBlob, c, hdrCall.Pos(),
-			"the first block is decoded as a header only under `GetType() == \"OSMHeader\"`",
-			"the first block is decoded as a header without testing its type: a scan resumed at a data block fails or misreads it")
-	}
-	// dispatch of a non-header first block
-	rd := m.goOf("reader")
-	c = "dispatch-first-data-block@" + m.units[rd.lit].name
-	found := false
-	ast.Inspect(rd.lit.Body, func(n ast.Node) bool {
-		ifs, ok := n.(*ast.IfStmt)
-		if !ok || !isTypeTest(ifs.Cond, token.NEQ) {
-			return true
-		}
-		ast.Inspect(ifs.Body, func(x ast.Node) bool {
-			snd, ok := x.(*ast.SendStmt)
-			if !ok {
-				return true
-			}
-			if cl, ok := snd.Value.(*ast.CompositeLit); ok {
-				for _, e := range cl.Elts {
-					if kv, ok := e.(*ast.KeyValueExpr); ok {
-						if id, ok := kv.Key.(*ast.Ident); ok && id.Name == "Blob" && objOf(info, kv.Value) == firstBlob {
-							found = true
-						}
-					}
-				}
-			}
-			return true
-		})
-		return true
-	})
-	r.Check(found, c, rd.lit.Pos(), "when the first block is not a header its blob is sent to the workers before the loop starts",
-		fmt.Sprintf("a first block that is not a header is not dispatched (no send of a pair carrying `%s` under `GetType() != \"OSMHeader\"`): resuming at a data block loses that block's objects", firstBlob.Name()))
 }
